@@ -245,11 +245,16 @@ Proof.
   split; [vm_compute; reflexivity|]. split; [vm_compute; reflexivity|]. vm_compute. discriminate.
 Qed.
 
-(* a 32-byte key with two equal halves is of the size the mode requires, yet the function panics *)
-Theorem ip_pfx_equal_halves_refuted :
-  exists key, length key = 32%nat
-    /\ encrypt_ip id_ipprims (ascii_bytes "1.2.3.4") key mode_pfx = IpPanic.
-Proof. exists (ascii_bytes "0123456789abcdef0123456789abcdef"). split; vm_compute; reflexivity. Qed.
+(* a 32-byte key with two equal halves is refused with a key error by both functions, whatever the address
+   (before fb618e6 the library's assert_ne! made them panic) *)
+Theorem ip_pfx_equal_halves_rejected (Q : ipprims) (enc : bool) (ip key : bytes) :
+  parse_ip ip <> None -> length key = 32%nat -> firstn 16 key = skipn 16 key ->
+  ip_crypt enc Q ip key mode_pfx = IpErrKey.
+Proof.
+  intros Hp Hl Hh. unfold ip_crypt. destruct (parse_ip ip) as [a|]; [|congruence].
+  change (bytes_eqb mode_pfx mode_aes128) with false. change (bytes_eqb mode_pfx mode_pfx) with true. cbv iota.
+  rewrite Hl. cbn [Nat.eqb negb]. rewrite Hh, bytes_eqb_refl. reflexivity.
+Qed.
 
 (* an instance where the theorem applies: 192.168.1.1 and 2001:db8::1 under the identity permutations *)
 Example ip_roundtrip_applies :
